@@ -76,7 +76,7 @@ def chan_replay(ctx):
 
 
 MUX_CUTS = '{"cuteof", "cutrst"}'
-MUX0 = {"Streams": S([1, 2]), "MaxSent": 2, "MaxWrite": 2, "MaxMsg": 1, "Glitches": "{}", "Cuts": "{}", "CutPos": "{}"}
+MUX0 = {"Streams": S([1, 2]), "MaxSent": 2, "MaxWrite": 2, "MaxMsg": 1, "Glitches": "{}", "Cuts": "{}", "CutPos": "{}", "Delays": "{}"}
 
 LAYERS = {
     # name: (MC module, cfg template, quick consts, thorough consts, deadlock checking)
@@ -97,6 +97,10 @@ LAYERS = {
     "muxc": ("C02_MCMux", "C02_MCMux.cfg",
              dict(MUX0, MaxTotal=2, MaxClose=1, Bufs=S([2]), Cuts=MUX_CUTS, CutPos=S([0, 1])),
              dict(MUX0, MaxTotal=2, MaxClose=2, Bufs=S([2]), Cuts=MUX_CUTS, CutPos=S([0, 1, 2]))),
+    # ... and with (virtual) time passing between the operations
+    "muxt": ("C02_MCMux", "C02_MCMux.cfg",
+             dict(MUX0, MaxTotal=2, MaxClose=1, Bufs=S([2]), Delays='{"30s", "1h"}'),
+             dict(MUX0, MaxTotal=2, MaxClose=2, Bufs=S([2]), Delays='{"1s", "10s", "30s", "1min", "1h"}')),
     "start": ("C02_MCStart", "C02_MCStart.cfg",
               {"HLen": 2, "MaxFrames": 2, "MaxUnits": 2, "Bufs": S([1, 2])},
               {"HLen": 2, "MaxFrames": 3, "MaxUnits": 2, "Bufs": S([1, 2])}),
@@ -106,13 +110,13 @@ LAYERS = {
 }
 # second mux replay instance (thorough): every channel may be half-closed
 MUX_B = {"Streams": S([1, 2]), "MaxSent": 2, "MaxWrite": 2, "MaxMsg": 1, "MaxTotal": 2, "MaxClose": 4, "Bufs": S([1, 2]),
-         "Glitches": "{}", "Cuts": "{}", "CutPos": "{}"}
+         "Glitches": "{}", "Cuts": "{}", "CutPos": "{}", "Delays": "{}"}
 
 
 def mux_exhaustive(ctx):
     return {"Streams": S([1, 2]), "MaxSent": 2, "MaxWrite": 2, "MaxMsg": 1, "MaxTotal": 4 if ctx.tier == "thorough" else 3,
             "MaxClose": 4, "Bufs": S([1, 2]), "Glitches": CH_GLITCHES if ctx.tier == "thorough" else "{}",
-            "Cuts": "{}", "CutPos": "{}"}   # (cuts are checked exhaustively on the printed instance mux_c)
+            "Cuts": "{}", "CutPos": "{}", "Delays": "{}"}   # (cuts are checked exhaustively on the printed instance mux_c)
 
 
 # ------------------------------------------------------------------------------------------------
@@ -325,6 +329,7 @@ LAYER_NEED = {
                 "read-glitch:temperr", "glitch:eofdata"],
     "mux": ["op:open", "op:write", "op:closewrite", "op:read", "read-after-own-closewrite", "eof"],
     "muxg": ["op:open", "op:write", "op:read", "glitch:dataerr", "glitch:temperr", "glitch:shortwrite"],
+    "muxt": ["op:open", "op:write", "op:read", "op:wait", "eof"],
     "muxc": ["op:open", "op:write", "op:read", "cut:cuteof", "cut:cutrst", "cut-two-streams-open", "term:err", "eof"],
     "start": ["op:write", "op:finish", "op:read", "start-coalesced", "start-boundary", "start-carry"],
     "lazy": ["wait-after-closewrite", "wait-read-pending", "lazy-flush-by:cwrite", "lazy-flush-by:creadbegin", "lazy-flush-by:cclosewrite", "op:swrite", "op:sread",
@@ -447,7 +452,7 @@ def run(ctx):
         fg = []
         jobs = [("C02_MC", "C02_MC.cfg", name, consts, False) for name, consts in chan_replay(ctx)]
         for lname, (module, template, quick, thor) in LAYERS.items():
-            gname = {"muxg": "mux_g", "muxc": "mux_c"}.get(lname, lname + "_a")
+            gname = {"muxg": "mux_g", "muxc": "mux_c", "muxt": "muxt_a"}.get(lname, lname + "_a")
             jobs.append((module, template, gname, thor if thorough else quick, False))
         if thorough:
             jobs.append(("C02_MCMux", "C02_MCMux.cfg", "mux_b", MUX_B, False))
